@@ -15,6 +15,9 @@ package server
 // oracle does not depend on the server's own bookkeeping.
 
 import (
+	"io"
+	"log/slog"
+	"net/netip"
 	"context"
 	"fmt"
 	"sort"
@@ -22,6 +25,7 @@ import (
 	"time"
 
 	"github.com/osrg/gobgp/v4/api"
+	"github.com/osrg/gobgp/v4/internal/pkg/table"
 	"github.com/osrg/gobgp/v4/internal/pkg/verifkit"
 	"github.com/osrg/gobgp/v4/pkg/apiutil"
 	"github.com/osrg/gobgp/v4/pkg/packet/bgp"
@@ -38,6 +42,8 @@ const (
 	hUp   // re-establish a session that is down
 	hDeletePeer
 	hBurst // several announcements written back to back before settling
+	hRace   // two peers announce / withdraw the same prefix at the same time
+	hRaceUp // a session completes its handshake while another peer's update is in flight
 )
 
 type h01Op struct {
@@ -54,11 +60,20 @@ type h01Case struct {
 	Global rsGlobal `json:"global"`
 	Peers  []rsPeer `json:"peers"`
 	Ops    []h01Op  `json:"ops"`
+	Sched  uint64   `json:"sched"` // seed steering the verif yield points (0 = untouched scheduling)
+	Focus  bool     `json:"focus"` // most operations hit one or two prefixes
 }
 
 func drawH01(t *rapid.T) h01Case {
 	var c h01Case
+	c.Focus = rapid.IntRange(0, 2).Draw(t, "focus") == 0
+	if rapid.IntRange(0, 2).Draw(t, "sched_on") != 0 {
+		c.Sched = uint64(rapid.IntRange(1, 1<<30).Draw(t, "sched"))
+	}
 	np := rapid.IntRange(2, 5).Draw(t, "npeers")
+	if c.Focus && np < 4 {
+		np = 4
+	}
 	for i := 0; i < np; i++ {
 		l := fmt.Sprintf("p%d", i)
 		p := rsPeer{Addr: fmt.Sprintf("10.0.0.%d", i+1), ID: fmt.Sprintf("10.0.0.%d", i+1)}
@@ -69,6 +84,9 @@ func drawH01(t *rapid.T) h01Case {
 			p.AS = rsLocalAS
 		}
 		p.SendMax = rapid.SampledFrom([]int{0, 0, 0, 1, 2}).Draw(t, l+"sendmax")
+		if c.Focus && i == 0 && p.SendMax == 0 {
+			p.SendMax = 1 + rapid.IntRange(0, 1).Draw(t, l+"sendmax_f")
+		}
 		p.AddPathRecv = rapid.IntRange(0, 3).Draw(t, l+"aprecv") == 0
 		if i > 0 && rapid.IntRange(0, 9).Draw(t, l+"sameid") == 0 {
 			p.ID = c.Peers[0].ID // second session to the same router
@@ -78,14 +96,20 @@ func drawH01(t *rapid.T) h01Case {
 		c.Peers = append(c.Peers, p)
 	}
 	n := rapid.IntRange(3, 40).Draw(t, "nops")
-	kinds := []int{hAnnounce, hAnnounce, hAnnounce, hAnnounce, hAnnounce, hWithdraw, hWithdraw, hFlap, hApiAdd, hApiDel, hDown, hUp, hBurst, hDeletePeer}
+	kinds := []int{hAnnounce, hAnnounce, hAnnounce, hAnnounce, hAnnounce, hWithdraw, hWithdraw, hFlap, hApiAdd, hApiDel, hDown, hUp, hBurst, hDeletePeer, hRace, hRaceUp}
+	maxPrefix := 5
+	if c.Focus {
+		kinds = []int{hAnnounce, hAnnounce, hAnnounce, hAnnounce, hWithdraw, hWithdraw, hWithdraw, hRace, hRace, hRaceUp, hFlap, hApiAdd, hApiDel}
+		maxPrefix = 1
+		n = rapid.IntRange(8, 40).Draw(t, "nops_f")
+	}
 	for i := 0; i < n; i++ {
 		l := fmt.Sprintf("o%d", i)
 		op := h01Op{
 			Kind:    rapid.SampledFrom(kinds).Draw(t, l+"kind"),
 			Peer:    rapid.IntRange(0, np-1).Draw(t, l+"peer"),
-			Prefix:  rapid.IntRange(0, 5).Draw(t, l+"prefix"),
-			V6:      rapid.IntRange(0, 4).Draw(t, l+"v6") == 0,
+			Prefix:  rapid.IntRange(0, maxPrefix).Draw(t, l+"prefix"),
+			V6:      !c.Focus && rapid.IntRange(0, 4).Draw(t, l+"v6") == 0,
 			PathID:  rapid.IntRange(1, 2).Draw(t, l+"pathid"),
 			Variant: rapid.IntRange(0, 5).Draw(t, l+"variant"),
 			N:       rapid.IntRange(2, 5).Draw(t, l+"n"),
@@ -118,6 +142,7 @@ type h01Run struct {
 	local  map[rsViewKey]h01Route
 	serial uint32
 	log    []string
+	raced  bool
 	// for the non-trivial rule
 	bestChangedAfterTold bool
 	told                 map[rsViewKey]bool
@@ -198,8 +223,9 @@ func (r *h01Run) apply(op h01Op) *verifkit.Failure {
 		}
 		return k
 	}
-	announce := func(prefix, pathID, variant int) {
-		tag := r.nextTag(op.Peer)
+	announceFrom := func(pi int, prefix, pathID, variant int) {
+		p := r.peers[pi]
+		tag := r.nextTag(pi)
 		a := h01Attrs(p.spec, op.V6, variant, tag)
 		k := rsViewKey{V6: op.V6, Prefix: rsPrefix(op.V6, prefix).String()}
 		id := uint32(0)
@@ -209,7 +235,40 @@ func (r *h01Run) apply(op h01Op) *verifkit.Failure {
 		}
 		_ = p.sess.send(rsAnnounce(p.spec, op.V6, prefix, id, a), rsTxOpt(p.spec))
 		p.adjin[k] = h01Route{attrs: a, tag: tag}
-		r.logf("peer %d announces %s id=%d variant %d tag %#x", op.Peer, k.Prefix, id, variant, tag)
+		r.logf("peer %d announces %s id=%d variant %d tag %#x", pi, k.Prefix, id, variant, tag)
+	}
+	withdrawFrom := func(pi int, prefix, pathID int) {
+		p := r.peers[pi]
+		k := rsViewKey{V6: op.V6, Prefix: rsPrefix(op.V6, prefix).String()}
+		if p.spec.AddPathRecv {
+			k.ID = uint32(pathID)
+		}
+		_ = p.sess.send(rsWithdraw(op.V6, prefix, k.ID), rsTxOpt(p.spec))
+		delete(p.adjin, k)
+		r.logf("peer %d withdraws %s id=%d", pi, k.Prefix, k.ID)
+	}
+	// the update the "other" peer of a racing operation sends: withdraw what it has, else announce
+	otherUpdate := func(qi int) {
+		q := r.peers[qi]
+		k := rsViewKey{V6: op.V6, Prefix: rsPrefix(op.V6, op.Prefix).String()}
+		if q.spec.AddPathRecv {
+			k.ID = uint32(op.PathID)
+		}
+		if _, has := q.adjin[k]; has && op.N%2 == 0 {
+			withdrawFrom(qi, op.Prefix, op.PathID)
+		} else {
+			announceFrom(qi, op.Prefix, op.PathID, (op.Variant+op.N)%5)
+		}
+	}
+	announce := func(prefix, pathID, variant int) { announceFrom(op.Peer, prefix, pathID, variant) }
+	otherPeer := func() int {
+		for d := 1; d < len(r.peers); d++ {
+			qi := (op.Peer + op.N + d) % len(r.peers)
+			if qi != op.Peer && r.peers[qi].up {
+				return qi
+			}
+		}
+		return -1
 	}
 	switch op.Kind {
 	case hAnnounce:
@@ -224,6 +283,56 @@ func (r *h01Run) apply(op h01Op) *verifkit.Failure {
 		for i := 0; i < op.N; i++ {
 			announce((op.Prefix+i)%6, op.PathID, (op.Variant+i)%6)
 		}
+	case hRace:
+		qi := otherPeer()
+		if !p.up || qi < 0 {
+			return nil
+		}
+		r.logf("-- racing --")
+		if op.Variant%3 == 0 {
+			if _, has := p.adjin[key(op.PathID)]; has {
+				withdrawFrom(op.Peer, op.Prefix, op.PathID)
+			} else {
+				announce(op.Prefix, op.PathID, op.Variant)
+			}
+		} else {
+			announce(op.Prefix, op.PathID, op.Variant)
+		}
+		otherUpdate(qi)
+		r.raced = true
+	case hRaceUp:
+		qi := otherPeer()
+		if p.deleted || qi < 0 {
+			return nil
+		}
+		if p.up {
+			p.sess.close()
+			p.up, p.adjin, p.downAt = false, map[rsViewKey]h01Route{}, n.now()
+			n.settle()
+			r.logf("peer %d session closed", op.Peer)
+		}
+		if wait := p.downAt + 6*time.Second - n.now(); wait > 0 {
+			n.advance(wait)
+		}
+		// handshake up to the last KEEPALIVE
+		ss := n.connect(p.spec.def())
+		n.settle()
+		if err := ss.send(p.spec.def().open(rsOpenSpec(p.spec)), nil); err != nil {
+			return r.fail("establish", "peer %d: writing OPEN: %v", op.Peer, err)
+		}
+		n.settle()
+		r.logf("-- racing: peer %d completes its handshake --", op.Peer)
+		if err := ss.send(bgp.NewBGPKeepAliveMessage(), nil); err != nil {
+			return r.fail("establish", "peer %d: writing KEEPALIVE: %v", op.Peer, err)
+		}
+		otherUpdate(qi)
+		n.settle()
+		p.sess, p.view, p.up = ss, newRsView(), true
+		p.adjin = map[rsViewKey]h01Route{}
+		if st, _, _ := n.peerState(p.spec.Addr); st != api.PeerState_SESSION_STATE_ESTABLISHED {
+			return r.fail("establish", "peer %d is %v after a complete handshake", op.Peer, st)
+		}
+		r.raced = true
 	case hWithdraw:
 		if !p.up {
 			return nil
@@ -583,6 +692,10 @@ func runH01(t *testing.T) func(c h01Case, st *verifkit.Stats) *verifkit.Failure 
 			}
 			defer n.stop()
 			r := &h01Run{c: &c, n: n, st: st, local: map[rsViewKey]h01Route{}, told: map[rsViewKey]bool{}}
+			if simYieldAvailable {
+				simYieldInstall(c.Sched)
+				defer simYieldInstall(0)
+			}
 			if err := rsAddPeers(n, c.Global, c.Peers); err != nil {
 				return verifkit.Failf("addpeer", "%v", err)
 			}
@@ -610,6 +723,15 @@ func runH01(t *testing.T) func(c h01Case, st *verifkit.Stats) *verifkit.Failure 
 			if replaced && len(c.Peers) >= 2 {
 				st.Nontrivial()
 			}
+			if r.raced {
+				st.Label("racing-operations")
+			}
+			if c.Sched != 0 && simYieldAvailable {
+				st.Label("steered-schedule")
+			}
+			if c.Focus {
+				st.Label("focused")
+			}
 			if f := n.stop(); f != nil {
 				return r.fail(f.Sig, "%s", f.Msg)
 			}
@@ -618,7 +740,47 @@ func runH01(t *testing.T) func(c h01Case, st *verifkit.Stats) *verifkit.Failure 
 	}
 }
 
+// h01CoalesceProbe: the packing step of the coalescing sender, without ADD-PATH, keeps only
+// the last queued action per prefix (deterministic form of the "wrong-route-advertised"
+// failures the racing histories find only under load: the emission order of the two
+// announcements is a map iteration order).
+func h01CoalesceProbe(st *verifkit.Stats) *verifkit.Failure {
+	for round := 0; round < 40; round++ {
+		tm := table.NewTableManager(slog.New(slog.NewTextHandler(io.Discard, nil)), []bgp.Family{bgp.RF_IPv4_UC})
+		nlri, _ := bgp.NewIPAddrPrefix(netip.MustParsePrefix("10.100.0.0/24"))
+		mk := func(peer string, as uint32, tag uint32) *table.Path {
+			src := &table.PeerInfo{AS: as, LocalAS: rsLocalAS, ID: netip.MustParseAddr(peer), Address: netip.MustParseAddr(peer), LocalID: netip.MustParseAddr(rsRouterID)}
+			nh, _ := bgp.NewPathAttributeNextHop(netip.MustParseAddr(peer))
+			attrs := []bgp.PathAttributeInterface{bgp.NewPathAttributeOrigin(0), bgp.NewPathAttributeAsPath([]bgp.AsPathParamInterface{bgp.NewAs4PathParam(2, []uint32{as})}), nh, bgp.NewPathAttributeCommunities([]uint32{tag})}
+			return table.NewPath(bgp.RF_IPv4_UC, src, bgp.PathNLRI{NLRI: nlri}, false, attrs, time.Unix(1, 0), false)
+		}
+		tm.Update(mk("10.0.0.1", 65001, 1))
+		tm.Update(mk("10.0.0.2", 65002, 2))
+		paths := tm.GetPathList(table.GLOBAL_RIB_NAME, 0, []bgp.Family{bgp.RF_IPv4_UC})
+		if len(paths) != 2 || paths[0].LocalID() == paths[1].LocalID() {
+			return verifkit.Failf("probe-setup", "expected two paths with distinct local identifiers, got %d", len(paths))
+		}
+		// queued for one peer: first the one, then the other became best
+		first, second := paths[round%2], paths[1-round%2]
+		msgs := table.CreateUpdateMsgFromPaths([]*table.Path{first, second}, &bgp.MarshallingOption{})
+		holds := uint32(0)
+		for _, m := range msgs {
+			u := m.Body.(*bgp.BGPUpdate)
+			for range u.NLRI {
+				holds = h01Tag(u.PathAttributes)
+			}
+		}
+		st.SubEval(1)
+		if want := h01Tag(second.GetPathAttrs()); holds != want {
+			return verifkit.Failf("wrong-route-advertised", "round %d: two announcements of 10.100.0.0/24 queued for a peer without ADD-PATH (tag %d, then tag %d) are packed into %d UPDATEs after which the peer holds tag %d", round, h01Tag(first.GetPathAttrs()), want, len(msgs), holds)
+		}
+	}
+	st.Nontrivial()
+	return nil
+}
+
 func TestVerifC01(t *testing.T) {
+	verifkit.RegisterProbe("C01", "coalesce-last-per-prefix", h01CoalesceProbe)
 	verifkit.Run(t, "C01", drawH01, runH01(t))
 }
 
